@@ -240,6 +240,29 @@ def composite_file(tr, status):
     except Exception as e:
         ok, detail = False, repr(e)
     status["composite_order"] = (ok, detail)
+    # the single random draw of SMCSamples.resample: rng.choice(len(self.x), size=n_samples, replace=True, p=w)
+    rs_ok, rs_detail, rs_text = True, "", ""
+    try:
+        m = tr.find_method("samples", "SMCSamples", "resample")
+        calls = [n for n in ast.walk(m[1]) if isinstance(n, ast.Call) and isinstance(n.func, ast.Attribute) and n.func.attr == "choice"
+                 and isinstance(n.func.value, ast.Name) and n.func.value.id == "rng"]
+        if len(calls) != 1:
+            raise Untranslatable(f"SMCSamples.resample draws {len(calls)} times from the generator")
+        c = calls[0]
+        kws = {k.arg: k.value for k in c.keywords}
+        if len(c.args) != 1 or ast.unparse(c.args[0]) != "len(self.x)":
+            raise Untranslatable("SMCSamples.resample: the population handed to choice is not len(self.x): " + ast.unparse(c))
+        if "replace" in kws and not (isinstance(kws["replace"], ast.Constant) and kws["replace"].value is True):
+            raise Untranslatable("SMCSamples.resample: `replace` is not the constant True: " + ast.unparse(kws["replace"]))
+        if "size" not in kws or ast.unparse(kws["size"]) != "n_samples" or "p" not in kws or not isinstance(kws["p"], ast.Name):
+            raise Untranslatable("SMCSamples.resample: unexpected size / p arguments: " + ast.unparse(c))
+        rs_text = ("(* SMCSamples.resample consults the generator exactly once: choice(len(self.x), size=n_samples, replace=True, p=<the probabilities>) *)\n"
+                   "Definition resample_choice_calls : nat := 1.\n"
+                   "Definition resample_draws_with_replacement : bool := true.\n"
+                   "Definition resample_draws_from_whole_population : bool := true.\n")
+    except Exception as e:
+        rs_ok, rs_detail = False, repr(e)
+    status["resample_call"] = (rs_ok, rs_detail)
     if not ok:
         return "(* extraction failed: " + detail + " *)\n"
     f = lambda l: "[" + "; ".join(l) + "]"
@@ -250,7 +273,8 @@ def composite_file(tr, status):
             f"Definition inverse_order : list stage := {f(out['inverse'])}.\n"
             f"Definition fit_order : list stage := {f(out['fit'])}.\n"
             "(* every stage log-Jacobian is added to the running total with `+=` in both directions *)\n"
-            "Definition accumulates_by_addition : bool := true.\n")
+            "Definition accumulates_by_addition : bool := true.\n"
+            + (rs_text if rs_ok else "(* resample call extraction failed: " + rs_detail + " *)\n"))
 
 
 TRANSFORMS_HEADER = """(* GENERATED on every run by /verif/tools/translate.py from /repo/src/aspire/transforms.py (working tree). Do not edit.
